@@ -11,6 +11,7 @@
   by the port and the oracle on the real objects (harness/props/c13.py).
 -/
 import Cerberus.Proofs.Render
+import Cerberus.Proofs.RenderKeys
 import Cerberus.Extracted
 namespace Cerberus
 open Render
@@ -152,6 +153,30 @@ theorem C13_empty (hasMsg : Nat → Bool) (es : List Err) (t' : PT)
       have := count_zero_of_isEmpty t' hh
       omega
 
+/-- **top-level keys.**  The keys of the rendering are exactly the first document-path
+    elements of the recorded errors that yield a message (`topMsgs`: an *of error always,
+    a group error through its children, any other error when the handler has a template
+    for its code) — no other key appears, none is missing. -/
+theorem C13_keys (hasMsg : Nat → Bool) (es : List Err) (t' : PT)
+    (h : render hasMsg es PT.empty = .ok t') (hne : ∀ e, e ∈ es → e.dp ≠ []) :
+    ∀ k, k ∈ t'.keys ↔ ∃ e, e ∈ es ∧ 0 < topMsgs hasMsg e ∧ e.dp.head? = some k := by
+  intro k
+  have := keys_render hasMsg es PT.empty t' h hne k
+  simpa [PT.keys, PT.empty, PT.ents] using this
+
+/-- … in the words of the property, when every recorded error yields a message (the
+    handler knows every code, group errors have children): the top-level keys are exactly
+    the first document-path elements of the recorded errors. -/
+theorem C13_keys_all (hasMsg : Nat → Bool) (es : List Err) (t' : PT)
+    (h : render hasMsg es PT.empty = .ok t') (hne : ∀ e, e ∈ es → e.dp ≠ [])
+    (hall : ∀ e, e ∈ es → 0 < topMsgs hasMsg e) :
+    ∀ k, k ∈ t'.keys ↔ ∃ e, e ∈ es ∧ e.dp.head? = some k := by
+  intro k
+  rw [C13_keys hasMsg es t' h hne k]
+  constructor
+  · rintro ⟨e, he, _, hk⟩; exact ⟨e, he, hk⟩
+  · rintro ⟨e, he, hk⟩; exact ⟨e, he, hall e he, hk⟩
+
 /-- every error definition that the validator files directly (it has a rule, or
     is CUSTOM / UNKNOWN_FIELD) and that is not a group error has a message
     template — checked on the tables extracted from the live code -/
@@ -180,5 +205,9 @@ example : (match render (fun c => Extracted.messageCodes.contains c) C13_sample 
            | .ok t => t.count | .error _ => 0) = 4 := by decide
 example : ∀ x ∈ allErrs C13_sample, x.isLogic = true → x.isGroup = true := by decide
 example : ∀ e ∈ C13_sample, 1 ≤ nMsg e := by decide
+example : (match render (fun c => Extracted.messageCodes.contains c) C13_sample PT.empty with
+           | .ok t => t.keys | .error _ => []) = [.s "a", .s "b"] := by decide
+example : (∀ e, e ∈ C13_sample → e.dp ≠ []) ∧
+    (∀ e, e ∈ C13_sample → 0 < topMsgs (fun c => Extracted.messageCodes.contains c) e) := by decide
 
 end Cerberus
